@@ -35,6 +35,8 @@ struct Hello {
     sid_first: bool,
     wrong_ns: bool,
     no_capabilities: bool,
+    /// a second <capabilities> element (with another capability list) follows the first
+    dup_capabilities: Option<Vec<String>>,
     prefix: bool,
     server_waits: bool,
     client_send_stall: usize,
@@ -89,12 +91,19 @@ fn gen_hello(ctx: &mut Ctx) -> Hello {
         7 => Sid::NotANumber,
         _ => Sid::Empty,
     };
+    let dup_capabilities = ctx.chance(1, 12).then(|| match ctx.pick(4) {
+        0 => vec![CAP_BASE10.to_string()],
+        1 => vec![CAP_BASE10.to_string(), CAP_BASE11.to_string(), CAP_JUNOS.to_string()],
+        2 => vec![],
+        _ => caps.clone(),
+    });
     Hello {
         caps,
         sid,
         sid_first: ctx.chance(1, 3),
         wrong_ns: ctx.chance(1, 16),
         no_capabilities: ctx.chance(1, 16),
+        dup_capabilities,
         prefix: ctx.pick(2) == 1,
         server_waits: ctx.pick(2) == 1,
         client_send_stall: ctx.pick(3),
@@ -124,6 +133,13 @@ fn hello_bytes(h: &Hello) -> Vec<u8> {
     }
     if !h.no_capabilities {
         root.push(caps);
+        if let Some(second) = &h.dup_capabilities {
+            let mut c2 = E::new(ns, "capabilities");
+            for c in second {
+                c2.push(E::new(ns, "capability").tok(c));
+            }
+            root.push(c2);
+        }
     }
     if !h.sid_first {
         root = root.kids(sid_elems);
@@ -215,7 +231,10 @@ fn run(ctx: &mut Ctx) -> Verdict {
     let server_bases: BTreeSet<&str> = h.caps.iter().map(String::as_str).filter(|c| *c == CAP_BASE10 || *c == CAP_BASE11).collect();
     let client_bases: BTreeSet<&str> = client.iter().map(String::as_str).filter(|c| *c == CAP_BASE10 || *c == CAP_BASE11).collect();
     let common: Vec<&str> = server_bases.intersection(&client_bases).copied().collect();
-    let well_formed = !h.wrong_ns && !h.no_capabilities;
+    let well_formed = !h.wrong_ns && !h.no_capabilities && h.dup_capabilities.is_none();
+    if h.dup_capabilities.is_some() && !h.no_capabilities {
+        ctx.count("probe.hello_with_two_capabilities_elements");
+    }
     let expect = well_formed && sid_value.is_some() && !common.is_empty();
     ctx.nontrivial = expect;
     ctx.count(if expect { "outcome.expected_established" } else { "outcome.expected_refused" });
@@ -270,7 +289,7 @@ pub static C12: PropSpec = PropSpec {
     runs: |t| if t == Tier::Thorough { 2_000_000 } else { 150_000 },
     enumerated: |t| crate::props::c12_tls::count(t),
     run,
-    rule: "seeded: server hellos from the matrix base {1.0, 1.1, both, neither} x other capabilities x session-id {valid incl. 1 and 2^32-1, 0, 2^32, negative, missing, duplicated, zero-padded, non-numeric, empty} x namespace prefix/default x element order x wrong namespace / missing <capabilities>; the hello is available before the client's hello is accepted, or the server waits for the client hello first; client send back-pressure; permuted scheduling with spurious polls. enumerated: real TLS transport against a peer that uses RFC 6242 chunked framing when both hellos advertise :base:1.1. Non-trivial = the hello should establish a session; distinct = distinct event-log hash",
+    rule: "seeded: server hellos from the matrix base {1.0, 1.1, both, neither} x other capabilities x session-id {valid incl. 1 and 2^32-1, 0, 2^32, negative, missing, duplicated, zero-padded, non-numeric, empty} x namespace prefix/default x element order x wrong namespace / missing <capabilities> / a second <capabilities> element with another list; the hello is available before the client's hello is accepted, or the server waits for the client hello first; client send back-pressure; permuted scheduling with spurious polls. enumerated: real TLS transport against a peer that uses RFC 6242 chunked framing when both hellos advertise :base:1.1. Non-trivial = the hello should establish a session; distinct = distinct event-log hash",
     components: &[
         ("netconf session.rs, hello.rs, capabilities.rs", "real"),
         ("transport", "seeded part: in-memory stub; enumerated part: real tls.rs over loopback TCP"),
